@@ -106,6 +106,8 @@ impl<T> ReplicaArc<Mutex<T>> {
 
         // This function is in `PrimaryArc` not `ReplicaArc` because it needs to call `Arc::clone`.
         #[cfg(feature = "verif_hooks")]
+        crate::verif_hooks::in_cs(5);
+        #[cfg(feature = "verif_hooks")]
         crate::verif_hooks::before_key_try(&*self.inner);
         let locked = Arc::clone(&self.inner).try_lock_owned();
         #[cfg(feature = "verif_hooks")]
